@@ -64,6 +64,17 @@ def c05(work, tier, seed, replay):
             by_store[store].append({"id": "%s%s-%d" % (scen, "" if eager else "i", j), "mode": "gated", "eager": eager, "db0": db0_of(db), "prog": progs[scen], "sched": s["sched"]})
         nsched += len(sch)
         rep.cov.setdefault("schedules", {})["%s/%s%s" % (scen, store, "" if eager else "/invoke-steps")] = len(sch)
+    # cross runs: every interleaving TLC lists for the IN-MEMORY store is also forced on SQLite. With the production code a Begin
+    # that has to wait for the single connection simply stays blocked (the scheduler moves on after 40 ms); code that no longer
+    # serialises through the connection is driven through the interleavings the connection would have excluded.
+    for scen in ("Sc_TofuFork", "Sc_GrowFork", "Sc_GrowSizes", "Sc_GrowRefresh"):
+        db = SCEN2[scen]
+        sch = ops_list(work, scen, ops_consts(scen, db, "InMem"))
+        if tier == "quick":
+            sch = sch[::3]
+        for j, s in enumerate(sch):
+            by_store["Sql1"].append({"id": "%sx-%d" % (scen, j), "mode": "gated", "eager": True, "waitms": 40, "db0": db0_of(db), "prog": progs[scen], "sched": s["sched"]})
+        rep.cov["schedules"]["%s/in-memory interleavings forced on SQLite" % scen] = len(sch)
     # four processes: sampled behaviours of the unreduced space
     for scen, db in SCEN4.items():
         for store in ("InMem", "Sql1"):
@@ -163,10 +174,13 @@ CHECKS["C05"] = c05
 
 # ----------------------------------------------------------------------------- C07
 
-IFACE = {"WriteOpsFail": "WriteOps", "GetLatestFail": "GetLatest", "SetFail": "Set", "CommitFail": "Set", "CloseFail": "Close"}
-DRIVER = {"WriteOpsFail": "begin", "GetLatestFail": "query", "SetFail": "exec", "CommitFail": "commit", "CloseFail": "rollback"}
+IFACE = {"WriteOpsFail": "WriteOps", "GetLatestFail": "GetLatest", "SetFail": "Set", "CommitFail": "Set", "CloseFail": "Close", "ReadGetFail": "ReadGetLatest"}
+DRIVER = {"WriteOpsFail": "begin", "GetLatestFail": "query", "SetFail": "exec", "CommitFail": "commit", "CloseFail": "rollback", "ReadGetFail": "query"}
 TAIL = [{"op": "update", "log": "l1", "req": {"auth": "good", "old": 0, "b": 1, "n": 2, "extra": 0, "stale": 0, "ext": 0, "pf": {"k": "empty"}}},   # what a wrongly reset witness would accept
         {"op": "probe", "log": "l1", "n": 2}, {"op": "probe", "log": "l1", "n": 3}, {"op": "get", "log": "l1"}, {"op": "probe", "log": "l1", "n": 3}]
+
+
+DRIVER_FETCH = dict(DRIVER, GetLatestFail="next", ReadGetFail="next")     # the row fetch fails instead of the query
 
 
 def fault_steps(prog, sched, level):
@@ -177,13 +191,16 @@ def fault_steps(prog, sched, level):
         if k >= len(prog):
             break
         if name.endswith("Fail"):
-            faults[k].append((IFACE if level == "iface" else DRIVER)[name])
-        if name in ("Close", "CloseFail", "WriteOpsFail") or (name == "GetLatest" and prog[k]["kind"] == "read"):
+            faults[k].append({"iface": IFACE, "driver": DRIVER, "fetch": DRIVER_FETCH}[level][name])
+        if name in ("Close", "CloseFail", "WriteOpsFail", "ReadGetFail") or (name == "GetLatest" and prog[k]["kind"] == "read"):
             k += 1
     steps = []
     for op, fs in zip(prog, faults):
         if op["kind"] == "read":
-            steps.append({"op": "get", "log": op["log"]})
+            st = {"op": "get", "log": op["log"]}
+            if fs:
+                st["faults" if level == "iface" else "dfaults"] = fs
+            steps.append(st)
             continue
         st = {"op": "update", "log": op["log"], "req": op["req"]}
         if fs:
@@ -199,7 +216,7 @@ def fault_pipeline(work, rep, tier, seed, prop):
     progs = scenario_programs(work)
     maxf = 1 if tier == "quick" else 2
     plans = []   # (store kind for the driver, level, runs)
-    runs_by = {("inmem", "iface"): [], ("sqlfault", "iface"): [], ("sqlfault", "driver"): []}
+    runs_by = {("inmem", "iface"): [], ("sqlfault", "iface"): [], ("sqlfault", "driver"): [], ("sqlfault", "fetch"): []}
     nplace = 0
     for scen, db in HIST.items():
         for store, ds in (("InMem", False), ("Sql1", True)):
@@ -207,9 +224,11 @@ def fault_pipeline(work, rep, tier, seed, prop):
             ops_model_check(work, rep, scen + "+faults", c)
             sch = ops_list(work, scen, c)
             for j, s in enumerate(sch):
-                levels = ["iface"] if store == "InMem" else ["iface", "driver"]
+                levels = ["iface"] if store == "InMem" else ["iface", "driver", "fetch"]
                 for lv in levels:
                     steps, nf = fault_steps(progs[scen][0], s["sched"], lv)
+                    if lv == "fetch" and not any("next" in (st_.get("dfaults") or []) for st_ in steps):
+                        continue
                     pre = seqfam.tofu_steps(db0_of(db), 2) if db == "s1" else []
                     pre = [x for x in pre if x["log"] == "l1"]
                     runs_by[("inmem" if store == "InMem" else "sqlfault", lv)].append(
